@@ -26,11 +26,13 @@ RULE = (
     "initial directory; non-trivial = every case (each runs a 6-step history on the real CLI)"
 )
 ASSUMPTIONS = [
-    "clock pinned through bumpver.utils.now / bumpver.version.TODAY (2031-07-15)",
+    "clock pinned through bumpver.utils.now / bumpver.version.TODAY (five days incl. days whose ISO year differs from the calendar year)",
     "files in sub-directories and sections that exist but are invalid are outside the enumerated space",
 ]
 
-TODAY = dt.date(2031, 7, 15)
+# the day `init` runs: mid-year, and days on which the ISO week-numbering year differs from the calendar year (30 Dec 2024 is in ISO
+# 2025, 1 Jan 2027 in ISO 2026), the last and the first day of a year
+DAYS = [dt.date(2031, 7, 15), dt.date(2024, 12, 30), dt.date(2027, 1, 1), dt.date(2031, 12, 31), dt.date(2032, 1, 1)]
 CFG_FILES = ["pycalver.toml", "bumpver.toml", ".bumpver.toml", "pyproject.toml", "setup.cfg"]
 OTHER_FILES = ["README.md", "README.rst", "setup.py"]
 
@@ -132,6 +134,7 @@ def build(case):
 
 
 def run_case(case, st):
+    TODAY = DAYS[sum(case) % len(DAYS)]  # (every directory state has its day; all days occur for every kind of directory)
     world.set_today(TODAY)
     d = pool.fresh_dir("c19")
     os.chdir(d)
